@@ -30,6 +30,8 @@ def pipe_configs(ctx, emitted):
                     # the stages share one function value that takes its arguments the other ways a script function can (5 parameters, variadic)
                     for shape in ("fn5", "fnvar", "fn4elem", "fn4spread", "goanon"):
                         out.append({"ns": e["ns"], "cap": e["cap"], "items": e["items"], "expected": e["expected"], "mode": mode, "elem": elem, "goargs": False, "shape": shape})
+                    for shape in ("fn5", "fnvar"):
+                        out.append({"ns": e["ns"], "cap": e["cap"], "items": e["items"], "expected": e["expected"], "mode": mode, "elem": elem, "goargs": True, "shape": shape})
     # long pipelines: the same specification with more stages than the model checker explores (many goroutines alive at once, all
     # blocked on the main script until it starts consuming) -- more than 4 x GOMAXPROCS of them for every GOMAXPROCS used
     for ns in (5, 6, 9, 70):
